@@ -618,6 +618,24 @@ func globMatch(pat, s string) bool {
 		return false
 	case '?':
 		return len(s) > 0 && globMatch(pat[1:], s[1:])
+	case '[':
+		// a class of single characters and ranges (never in first position in generated
+		// patterns: there tile38 computes scan limits from the bracket itself)
+		end := strings.IndexByte(pat, ']')
+		if end < 0 || len(s) == 0 {
+			return false
+		}
+		ok := false
+		for cl := pat[1:end]; len(cl) > 0; {
+			if len(cl) >= 3 && cl[1] == '-' {
+				ok = ok || (s[0] >= cl[0] && s[0] <= cl[2])
+				cl = cl[3:]
+			} else {
+				ok = ok || s[0] == cl[0]
+				cl = cl[1:]
+			}
+		}
+		return ok && globMatch(pat[end+1:], s[1:])
 	default:
 		return len(s) > 0 && s[0] == pat[0] && globMatch(pat[1:], s[1:])
 	}
